@@ -2,6 +2,7 @@ package main
 
 import (
 	"go/token"
+	"go/types"
 	"strings"
 
 	"golang.org/x/tools/go/ssa"
@@ -11,9 +12,9 @@ func init() {
 	register(&propDef{
 		ID:      "C11",
 		Level:   "other",
-		Explain: "Certificate store and sources, decided structurally: (A1) Store.SetCertificates builds the name index before the atomic publish and nothing writes the set afterwards; (A2) the GetCertificate closure loads the store once per handshake and getCertificate works on its parameter only (no handshake sees a mixture of two sets); (M1) in getCertificate every return of the first certificate as fallback is dominated by the !strictMatch edge and the strict miss returns (nil, nil); (M2) every lookup in the name index uses a key derived from strings.ToLower(ServerName) (trailing dots trimmed), wildcard candidates included; (L1) every cycle of every condition-less loop in package cert is paced (sleep, channel operation or an advancing Consul blocking query) — a source delivering unusable material cannot spin; (L2) no send on a certificates channel is reachable from the error edge of the loader that produced the value — unusable material never replaces the working set; (L3) loadCertificates orders its result by the sorted name list, not by map iteration; (L4) TLSConfig starts, before returning, a goroutine that applies every value received from src.Certificates() with SetCertificates. (M3) wildcard candidates keep the label count of the requested name. (M4) every key stored into the name index is known non-empty or an element of the certificate's DNSNames; (M5) SetCertificates reaches the atomic store on every path; Not decided: X.509 name matching beyond the exact / one-label-wildcard index lookup (certificate contents).",
+		Explain: "Certificate store and sources, decided structurally. Sites are found by ROLE (what an instruction does) inside REGIONS (an entry plus the same-package helpers and closures below it), not by the names of unexported functions: the certificate SET is the struct type with a []tls.Certificate field that package cert publishes with a sync/atomic store (any spelling), its INDEX is the string-keyed map field, the HANDSHAKE CALLBACKS are the functions stored into tls.Config.GetCertificate, the PUBLISH ENTRY is the function taking a []tls.Certificate below which the set is published. (A1) every publish below the publish entry is dominated by the construction of the index of the published set, and nothing writes the set afterwards; (A2) no function below a handshake callback can load the published set twice on one path, and a function that is handed the set does not reload it (no handshake sees a mixture of two sets); (M1) whatever a handshake callback returns as the first certificate of the set is returned under a known 'not strict' condition, and a strict miss returns (nil, nil); (M2) every lookup in the name index below a handshake callback uses a key derived from strings.ToLower(ServerName), with trailing dots trimmed (hand-written loop or strings.TrimRight/TrimSuffix); (M3) wildcard candidates keep the label count of the requested name (Split / store \"*\" / Join); (M4) every key stored into the name index is known non-empty or an element of the certificate's DNSNames; (M5) the publish entry reaches the atomic publish on every path; (L1) every cycle of every condition-less loop in package cert is paced (sleep, channel operation, a helper that always does one of these, or an advancing Consul blocking query) and the error edge of a Consul query sleeps — a source delivering unusable material cannot spin; (L2) no send on a certificates channel is reachable from the error edge of the fallible loader that produced the value, also when loader and send are in different functions — unusable material never replaces the working set; (L3) the loop that builds the result of the PEM loader runs over a sorted name list, not over map iteration; (L4) TLSConfig starts, on every path to a successful return, a goroutine that applies every set received from src.Certificates() to the store unconditionally. Not decided: X.509 name matching beyond the exact / one-label-wildcard index lookup (certificate contents).",
 		Run:     runC11,
-		Trusted: []string{"Consul blocking queries with WaitIndex block until the index moves or the wait time passes", "sync/atomic.Value"},
+		Trusted: []string{"Consul blocking queries with WaitIndex block until the index moves or the wait time passes", "sync/atomic.Value", "sync/atomic.Pointer"},
 		Mutants: []mutant{
 			{Name: "empty common name indexed", File: "cert/store.go", Old: "\t\tif len(x509Cert.Subject.CommonName) > 0 {\n\t\t\tc.NameToCertificate[x509Cert.Subject.CommonName] = cert\n\t\t}\n", New: "\t\tc.NameToCertificate[x509Cert.Subject.CommonName] = cert\n", Expect: "C11.M4"},
 			{Name: "benign: common name guard written as != \"\"", File: "cert/store.go", Old: "\t\tif len(x509Cert.Subject.CommonName) > 0 {", New: "\t\tif x509Cert.Subject.CommonName != \"\" {", Expect: ""},
@@ -34,84 +35,598 @@ func init() {
 			{Name: "remove sort.Strings(n)", File: "cert/load.go", Old: "\tsort.Strings(n)\n", New: "\t_ = sort.Strings\n", Expect: "C11.L3"},
 			{Name: "updates goroutine drops every other set", File: "cert/source.go", Old: "\t\tfor certs := range src.Certificates() {\n\t\t\tstore.SetCertificates(certs)\n\t\t}", New: "\t\tfor certs := range src.Certificates() {\n\t\t\tif len(certs) > 1 {\n\t\t\t\tstore.SetCertificates(certs)\n\t\t\t}\n\t\t}", Expect: "C11.L4"},
 			{Name: "benign: select with time.After instead of Sleep", File: "cert/watch.go", Old: "\t\t\tlog.Printf(\"[ERROR] cert: Cannot make certificates: %s\", err)\n\t\t\ttime.Sleep(refresh)\n\t\t\tcontinue", New: "\t\t\tlog.Printf(\"[ERROR] cert: Cannot make certificates: %s\", err)\n\t\t\t<-time.After(refresh)\n\t\t\tcontinue", Expect: ""},
+			// proactive pass (hardening): refactorings and breaks of kinds not in the corpora
+			{Name: "benign: atomic store moved into a publish helper", File: "cert/store.go", Old: "\tcs := certstore{Certificates: certs}\n\tcs.BuildNameToCertificate()\n\ts.cs.Store(cs)\n", New: "\tcs := certstore{Certificates: certs}\n\tcs.BuildNameToCertificate()\n\ts.publish(cs)\n", More: []repl{{"var ErrNoCertsStored", "func (s *Store) publish(cs certstore) {\n\ts.cs.Store(cs)\n}\n\nvar ErrNoCertsStored"}}, Expect: ""},
+			{Name: "publish helper called before the index is built", File: "cert/store.go", Old: "\tcs := certstore{Certificates: certs}\n\tcs.BuildNameToCertificate()\n\ts.cs.Store(cs)\n", New: "\tcs := certstore{Certificates: certs}\n\ts.publish(cs)\n\tcs.BuildNameToCertificate()\n", More: []repl{{"var ErrNoCertsStored", "func (s *Store) publish(cs certstore) {\n\ts.cs.Store(cs)\n}\n\nvar ErrNoCertsStored"}}, Expect: "C11.A1"},
+			{Name: "publish helper called conditionally", File: "cert/store.go", Old: "\tcs := certstore{Certificates: certs}\n\tcs.BuildNameToCertificate()\n\ts.cs.Store(cs)\n", New: "\tcs := certstore{Certificates: certs}\n\tcs.BuildNameToCertificate()\n\tif len(certs) > 0 {\n\t\ts.publish(cs)\n\t}\n", More: []repl{{"var ErrNoCertsStored", "func (s *Store) publish(cs certstore) {\n\ts.cs.Store(cs)\n}\n\nvar ErrNoCertsStored"}}, Expect: "C11.M5"},
+			{Name: "benign: strict flag inverted into a local", File: "cert/store.go", Old: "\tif !strictMatch && (len(cs.Certificates) == 1", New: "\tfallback := !strictMatch\n\tif fallback && (len(cs.Certificates) == 1", More: []repl{{"\tif strictMatch {\n\t\treturn nil, nil\n\t}\n\treturn &cs.Certificates[0], nil", "\tif fallback {\n\t\treturn &cs.Certificates[0], nil\n\t}\n\treturn nil, nil"}}, Expect: ""},
+			{Name: "benign: defaultCert helper used by both fallbacks", File: "cert/store.go", Old: "\t\treturn &cs.Certificates[0], nil\n\t}\n\n\tname :=", New: "\t\treturn cs.defaultCert(), nil\n\t}\n\n\tname :=", More: []repl{{"\treturn &cs.Certificates[0], nil\n}", "\treturn cs.defaultCert(), nil\n}\n\nfunc (cs certstore) defaultCert() *tls.Certificate {\n\treturn &cs.Certificates[0]\n}"}}, Expect: ""},
+			{Name: "defaultCert helper, strict miss only for several certificates", File: "cert/store.go", Old: "\t\treturn &cs.Certificates[0], nil\n\t}\n\n\tname :=", New: "\t\treturn cs.defaultCert(), nil\n\t}\n\n\tname :=", More: []repl{{"\tif strictMatch {\n\t\treturn nil, nil\n\t}\n\treturn &cs.Certificates[0], nil\n}", "\tif strictMatch && len(cs.Certificates) > 1 {\n\t\treturn nil, nil\n\t}\n\treturn cs.defaultCert(), nil\n}\n\nfunc (cs certstore) defaultCert() *tls.Certificate {\n\treturn &cs.Certificates[0]\n}"}}, Expect: "C11.M1"},
+			{Name: "benign: named result assigned, bare return", File: "cert/store.go", Old: "\tif strictMatch {\n\t\treturn nil, nil\n\t}\n\treturn &cs.Certificates[0], nil\n}", New: "\tif !strictMatch {\n\t\tcert = &cs.Certificates[0]\n\t}\n\treturn\n}", Expect: ""},
+			{Name: "benign: trailing dots trimmed with HasSuffix/TrimSuffix", File: "cert/store.go", Old: "\tfor len(name) > 0 && name[len(name)-1] == '.' {\n\t\tname = name[:len(name)-1]\n\t}\n", New: "\tfor strings.HasSuffix(name, \".\") {\n\t\tname = strings.TrimSuffix(name, \".\")\n\t}\n", Expect: ""},
+			{Name: "trailing-dot trim removed", File: "cert/store.go", Old: "\tfor len(name) > 0 && name[len(name)-1] == '.' {\n\t\tname = name[:len(name)-1]\n\t}\n", New: "", Expect: "C11.M2"},
+			{Name: "exact lookup helper is given the raw server name", File: "cert/store.go", Old: "\tif cert, ok := cs.NameToCertificate[name]; ok {\n\t\treturn cert, nil\n\t}\n", New: "\tif cert := cs.exact(clientHello.ServerName); cert != nil {\n\t\treturn cert, nil\n\t}\n", More: []repl{{"type certstore struct", "func (cs certstore) exact(name string) *tls.Certificate {\n\treturn cs.NameToCertificate[name]\n}\n\ntype certstore struct"}}, Expect: "C11.M2"},
+			{Name: "benign: labels split by the caller, wildcard helper", File: "cert/store.go", Old: "\tlabels := strings.Split(name, \".\")\n\tfor i := range labels {\n\t\tlabels[i] = \"*\"\n\t\tcandidate := strings.Join(labels, \".\")\n\t\tif cert, ok := cs.NameToCertificate[candidate]; ok {\n\t\t\treturn cert, nil\n\t\t}\n\t}\n", New: "\tif cert := cs.wild(strings.Split(name, \".\")); cert != nil {\n\t\treturn cert, nil\n\t}\n", More: []repl{{"type certstore struct", "func (cs certstore) wild(labels []string) *tls.Certificate {\n\tfor i := range labels {\n\t\tlabels[i] = \"*\"\n\t\tif cert, ok := cs.NameToCertificate[strings.Join(labels, \".\")]; ok {\n\t\t\treturn cert\n\t\t}\n\t}\n\treturn nil\n}\n\ntype certstore struct"}}, Expect: ""},
+			{Name: "wildcard helper receives the parent labels only", File: "cert/store.go", Old: "\tlabels := strings.Split(name, \".\")\n\tfor i := range labels {\n\t\tlabels[i] = \"*\"\n\t\tcandidate := strings.Join(labels, \".\")\n\t\tif cert, ok := cs.NameToCertificate[candidate]; ok {\n\t\t\treturn cert, nil\n\t\t}\n\t}\n", New: "\tif cert := cs.wild(strings.Split(name, \".\")[1:]); cert != nil {\n\t\treturn cert, nil\n\t}\n", More: []repl{{"type certstore struct", "func (cs certstore) wild(labels []string) *tls.Certificate {\n\tfor i := range labels {\n\t\tlabels[i] = \"*\"\n\t\tif cert, ok := cs.NameToCertificate[strings.Join(labels, \".\")]; ok {\n\t\t\treturn cert\n\t\t}\n\t}\n\treturn nil\n}\n\ntype certstore struct"}}, Expect: "C11.M3"},
+			{Name: "benign: index add helper with the guard inside", File: "cert/store.go", Old: "\t\tif len(x509Cert.Subject.CommonName) > 0 {\n\t\t\tc.NameToCertificate[x509Cert.Subject.CommonName] = cert\n\t\t}\n\t\tfor _, san := range x509Cert.DNSNames {\n\t\t\tc.NameToCertificate[san] = cert\n\t\t}\n\t}\n}", New: "\t\tc.add(x509Cert.Subject.CommonName, cert)\n\t\tfor _, san := range x509Cert.DNSNames {\n\t\t\tc.add(san, cert)\n\t\t}\n\t}\n}\n\nfunc (c *certstore) add(name string, cert *tls.Certificate) {\n\tif name == \"\" {\n\t\treturn\n\t}\n\tc.NameToCertificate[name] = cert\n}", Expect: ""},
+			{Name: "index add helper without any guard", File: "cert/store.go", Old: "\t\tif len(x509Cert.Subject.CommonName) > 0 {\n\t\t\tc.NameToCertificate[x509Cert.Subject.CommonName] = cert\n\t\t}\n\t\tfor _, san := range x509Cert.DNSNames {\n\t\t\tc.NameToCertificate[san] = cert\n\t\t}\n\t}\n}", New: "\t\tc.add(x509Cert.Subject.CommonName, cert)\n\t\tfor _, san := range x509Cert.DNSNames {\n\t\t\tc.add(san, cert)\n\t\t}\n\t}\n}\n\nfunc (c *certstore) add(name string, cert *tls.Certificate) {\n\tc.NameToCertificate[name] = cert\n}", Expect: "C11.M4"},
+			{Name: "benign: callback calls a captured local closure", File: "cert/source.go", Old: "\tx := &tls.Config{\n", New: "\tpick := func(clientHello *tls.ClientHelloInfo) (cert *tls.Certificate, err error) {\n\t\treturn getCertificate(store.certstore(), clientHello, strictMatch)\n\t}\n\tx := &tls.Config{\n", More: []repl{{"cert, err = getCertificate(store.certstore(), clientHello, strictMatch)", "cert, err = pick(clientHello)"}}, Expect: ""},
+			{Name: "benign: updates goroutine started by a helper", File: "cert/source.go", Old: "\tgo func() {\n\t\tfor certs := range src.Certificates() {\n\t\t\tstore.SetCertificates(certs)\n\t\t}\n\t}()\n", New: "\tstartUpdates(src, store)\n", More: []repl{{"// TLSConfig creates", "func startUpdates(src Source, store *Store) {\n\tgo func() {\n\t\tfor certs := range src.Certificates() {\n\t\t\tstore.SetCertificates(certs)\n\t\t}\n\t}()\n}\n\n// TLSConfig creates"}}, Expect: ""},
+			{Name: "benign: updates loop as a Store method, channel hoisted", File: "cert/source.go", Old: "\tgo func() {\n\t\tfor certs := range src.Certificates() {\n\t\t\tstore.SetCertificates(certs)\n\t\t}\n\t}()\n", New: "\tgo store.follow(src.Certificates())\n", More: []repl{{"// TLSConfig creates", "func (s *Store) follow(ch chan []tls.Certificate) {\n\tfor certs := range ch {\n\t\ts.SetCertificates(certs)\n\t}\n}\n\n// TLSConfig creates"}}, Expect: ""},
+			{Name: "named updates function filters empty sets", File: "cert/source.go", Old: "\tgo func() {\n\t\tfor certs := range src.Certificates() {\n\t\t\tstore.SetCertificates(certs)\n\t\t}\n\t}()\n", New: "\tgo applyUpdates(src, store)\n", More: []repl{{"// TLSConfig creates", "func applyUpdates(src Source, store *Store) {\n\tfor certs := range src.Certificates() {\n\t\tif len(certs) == 0 {\n\t\t\tcontinue\n\t\t}\n\t\tstore.SetCertificates(certs)\n\t}\n}\n\n// TLSConfig creates"}}, Expect: "C11.L4"},
+			{Name: "benign: sleep in a named helper", File: "cert/watch.go", Old: "time.Sleep(refresh)\n\t\t\tcontinue\n\t\t}\n\n\t\tif reflect", New: "pause(refresh)\n\t\t\tcontinue\n\t\t}\n\n\t\tif reflect", More: []repl{{"// watch monitors", "func pause(d time.Duration) {\n\ttime.Sleep(d)\n}\n\n// watch monitors"}}, Expect: ""},
+			{Name: "benign: make-and-send step helper, caller sleeps on failure", File: "cert/watch.go", Old: "\t\tcerts, err := loadCertificates(next)\n\t\tif err != nil {\n\t\t\tlog.Printf(\"[ERROR] cert: Cannot make certificates: %s\", err)\n\t\t\ttime.Sleep(refresh)\n\t\t\tcontinue\n\t\t}\n\n\t\tch <- certs\n", New: "\t\tif !makeAndSend(ch, next) {\n\t\t\ttime.Sleep(refresh)\n\t\t\tcontinue\n\t\t}\n", More: []repl{{"// watch monitors", "func makeAndSend(ch chan []tls.Certificate, next map[string][]byte) bool {\n\tcerts, err := loadCertificates(next)\n\tif err != nil {\n\t\tlog.Printf(\"[ERROR] cert: Cannot make certificates: %s\", err)\n\t\treturn false\n\t}\n\tch <- certs\n\treturn true\n}\n\n// watch monitors"}}, Expect: ""},
+			{Name: "step helper sends despite the error", File: "cert/watch.go", Old: "\t\tcerts, err := loadCertificates(next)\n\t\tif err != nil {\n\t\t\tlog.Printf(\"[ERROR] cert: Cannot make certificates: %s\", err)\n\t\t\ttime.Sleep(refresh)\n\t\t\tcontinue\n\t\t}\n\n\t\tch <- certs\n", New: "\t\tif !makeAndSend(ch, next) {\n\t\t\ttime.Sleep(refresh)\n\t\t\tcontinue\n\t\t}\n", More: []repl{{"// watch monitors", "func makeAndSend(ch chan []tls.Certificate, next map[string][]byte) bool {\n\tcerts, err := loadCertificates(next)\n\tif err != nil {\n\t\tlog.Printf(\"[ERROR] cert: Cannot make certificates: %s\", err)\n\t}\n\tch <- certs\n\treturn true\n}\n\n// watch monitors"}}, Expect: "C11.L2"},
+			{Name: "benign: whole iteration in a step helper that sleeps on failure", File: "cert/watch.go", Old: "\t\tnext, err := loadFn(path)\n\t\tif err != nil {\n\t\t\tlog.Printf(\"[ERROR] cert: Cannot load certificates from %s. %s\", path, err)\n\t\t\ttime.Sleep(refresh)\n\t\t\tcontinue\n\t\t}\n\n\t\tif reflect.DeepEqual(next, last) {\n\t\t\ttime.Sleep(refresh)\n\t\t\tcontinue\n\t\t}\n\n\t\tcerts, err := loadCertificates(next)\n\t\tif err != nil {\n\t\t\tlog.Printf(\"[ERROR] cert: Cannot make certificates: %s\", err)\n\t\t\ttime.Sleep(refresh)\n\t\t\tcontinue\n\t\t}\n\n\t\tch <- certs\n\t\tlast = next\n", New: "\t\tnext, ok := step(ch, refresh, path, last, loadFn)\n\t\tif !ok {\n\t\t\tcontinue\n\t\t}\n\t\tlast = next\n", More: []repl{{"// watch monitors", "func step(ch chan []tls.Certificate, refresh time.Duration, path string, last map[string][]byte, loadFn func(path string) (map[string][]byte, error)) (map[string][]byte, bool) {\n\tnext, err := loadFn(path)\n\tif err != nil {\n\t\tlog.Printf(\"[ERROR] cert: Cannot load certificates from %s. %s\", path, err)\n\t\ttime.Sleep(refresh)\n\t\treturn nil, false\n\t}\n\tif reflect.DeepEqual(next, last) {\n\t\ttime.Sleep(refresh)\n\t\treturn nil, false\n\t}\n\tcerts, err := loadCertificates(next)\n\tif err != nil {\n\t\tlog.Printf(\"[ERROR] cert: Cannot make certificates: %s\", err)\n\t\ttime.Sleep(refresh)\n\t\treturn nil, false\n\t}\n\tch <- certs\n\treturn next, true\n}\n\n// watch monitors"}}, Expect: ""},
+			{Name: "step helper, one failure path forgets the sleep", File: "cert/watch.go", Old: "\t\tnext, err := loadFn(path)\n\t\tif err != nil {\n\t\t\tlog.Printf(\"[ERROR] cert: Cannot load certificates from %s. %s\", path, err)\n\t\t\ttime.Sleep(refresh)\n\t\t\tcontinue\n\t\t}\n\n\t\tif reflect.DeepEqual(next, last) {\n\t\t\ttime.Sleep(refresh)\n\t\t\tcontinue\n\t\t}\n\n\t\tcerts, err := loadCertificates(next)\n\t\tif err != nil {\n\t\t\tlog.Printf(\"[ERROR] cert: Cannot make certificates: %s\", err)\n\t\t\ttime.Sleep(refresh)\n\t\t\tcontinue\n\t\t}\n\n\t\tch <- certs\n\t\tlast = next\n", New: "\t\tnext, ok := step(ch, refresh, path, last, loadFn)\n\t\tif !ok {\n\t\t\tcontinue\n\t\t}\n\t\tlast = next\n", More: []repl{{"// watch monitors", "func step(ch chan []tls.Certificate, refresh time.Duration, path string, last map[string][]byte, loadFn func(path string) (map[string][]byte, error)) (map[string][]byte, bool) {\n\tnext, err := loadFn(path)\n\tif err != nil {\n\t\tlog.Printf(\"[ERROR] cert: Cannot load certificates from %s. %s\", path, err)\n\t\ttime.Sleep(refresh)\n\t\treturn nil, false\n\t}\n\tif reflect.DeepEqual(next, last) {\n\t\ttime.Sleep(refresh)\n\t\treturn nil, false\n\t}\n\tcerts, err := loadCertificates(next)\n\tif err != nil {\n\t\tlog.Printf(\"[ERROR] cert: Cannot make certificates: %s\", err)\n\t\treturn nil, false\n\t}\n\tch <- certs\n\treturn next, true\n}\n\n// watch monitors"}}, Expect: "C11.L1"},
+			{Name: "loader wrapper swallowing the error", File: "cert/watch.go", Old: "certs, err := loadCertificates(next)", New: "certs, err := parse(next)", More: []repl{{"// watch monitors", "func parse(next map[string][]byte) ([]tls.Certificate, error) {\n\tcerts, _ := loadCertificates(next)\n\treturn certs, nil\n}\n\n// watch monitors"}}, Expect: "C11.L2"},
+			{Name: "benign: blocking query wrapper renamed", File: "cert/consul_source.go", Old: "pemBlocks, _, err := getCerts(client, key, 0)", New: "pemBlocks, _, err := fetchPEM(client, key, 0)", More: []repl{{"value, index, err := getCerts(client, key, lastIndex)", "value, index, err := fetchPEM(client, key, lastIndex)"}, {"func getCerts(client", "func fetchPEM(client"}}, Expect: ""},
+			{Name: "benign: poll helper hides the query and sleeps on its error", File: "cert/consul_source.go", Old: "\t\tvalue, index, err := getCerts(client, key, lastIndex)\n\t\tif err != nil {\n\t\t\tlog.Printf(\"[WARN] cert: Error fetching certificates from %s. %v\", key, err)\n\t\t\ttime.Sleep(time.Second)\n\t\t\tcontinue\n\t\t}\n", New: "\t\tvalue, index, ok := poll(client, key, lastIndex)\n\t\tif !ok {\n\t\t\tcontinue\n\t\t}\n", More: []repl{{"// watchKV monitors", "func poll(client *api.Client, key string, idx uint64) (map[string][]byte, uint64, bool) {\n\tvalue, index, err := getCerts(client, key, idx)\n\tif err != nil {\n\t\tlog.Printf(\"[WARN] cert: Error fetching certificates from %s. %v\", key, err)\n\t\ttime.Sleep(time.Second)\n\t\treturn nil, idx, false\n\t}\n\treturn value, index, true\n}\n\n// watchKV monitors"}}, Expect: ""},
+			{Name: "benign: consul parse-and-send closure as a named function", File: "cert/consul_source.go", Old: "\tgo func() {\n\t\tfor pemBlocks := range pemBlocksCh {\n\t\t\tcerts, err := loadCertificates(pemBlocks)\n\t\t\tif err != nil {\n\t\t\t\tlog.Printf(\"[ERROR] cert: Failed to load certificates. %s\", err)\n\t\t\t\tcontinue\n\t\t\t}\n\t\t\tch <- certs\n\t\t}\n\t}()\n", New: "\tgo parseAndSend(pemBlocksCh, ch)\n", More: []repl{{"// watchKV monitors", "func parseAndSend(in chan map[string][]byte, out chan []tls.Certificate) {\n\tfor pemBlocks := range in {\n\t\tif certs, err := loadCertificates(pemBlocks); err == nil {\n\t\t\tout <- certs\n\t\t} else {\n\t\t\tlog.Printf(\"[ERROR] cert: Failed to load certificates. %s\", err)\n\t\t}\n\t}\n}\n\n// watchKV monitors"}}, Expect: ""},
+			{Name: "benign: result built with make and index stores", File: "cert/load.go", Old: "\tvar certs []tls.Certificate\n\tfor _, certFile := range n {\n\t\tcerts = append(certs, x[certFile])\n\t}\n", New: "\tcerts := make([]tls.Certificate, len(n))\n\tfor i, certFile := range n {\n\t\tcerts[i] = x[certFile]\n\t}\n", Expect: ""},
+			{Name: "benign: collecting loop in a helper, sorted by the caller", File: "cert/load.go", Old: "\tvar certs []tls.Certificate\n\tfor _, certFile := range n {\n\t\tcerts = append(certs, x[certFile])\n\t}\n\n\treturn certs, errors.Join(errs...)", New: "\treturn inOrder(n, x), errors.Join(errs...)", More: []repl{{"func loadCertificates(", "func inOrder(n []string, x map[string]tls.Certificate) []tls.Certificate {\n\tvar certs []tls.Certificate\n\tfor _, certFile := range n {\n\t\tcerts = append(certs, x[certFile])\n\t}\n\treturn certs\n}\n\nfunc loadCertificates("}}, Expect: ""},
+			{Name: "collecting loop in a helper, nobody sorts", File: "cert/load.go", Old: "\tsort.Strings(n)\n\tvar certs []tls.Certificate\n\tfor _, certFile := range n {\n\t\tcerts = append(certs, x[certFile])\n\t}\n\n\treturn certs, errors.Join(errs...)", New: "\treturn inOrder(n, x), errors.Join(errs...)", More: []repl{{"func loadCertificates(", "func inOrder(n []string, x map[string]tls.Certificate) []tls.Certificate {\n\tvar certs []tls.Certificate\n\tfor _, certFile := range n {\n\t\tcerts = append(certs, x[certFile])\n\t}\n\treturn certs\n}\n\nfunc loadCertificates("}, {"\t\"sort\"\n", ""}}, Expect: "C11.L3"},
+			{Name: "result built while ranging over the map", File: "cert/load.go", Old: "\tsort.Strings(n)\n\tvar certs []tls.Certificate\n\tfor _, certFile := range n {\n\t\tcerts = append(certs, x[certFile])\n\t}\n", New: "\tsort.Strings(n)\n\tvar certs []tls.Certificate\n\tfor _, c := range x {\n\t\tcerts = append(certs, c)\n\t}\n", Expect: "C11.L3"},
+			{Name: "benign: value-receiver builder returns the indexed copy", File: "cert/store.go", Old: "\tcs := certstore{Certificates: certs}\n\tcs.BuildNameToCertificate()\n\ts.cs.Store(cs)\n", New: "\tcs := certstore{Certificates: certs}.indexed()\n\ts.cs.Store(cs)\n", More: []repl{{"func (c *certstore) BuildNameToCertificate() {\n\tc.NameToCertificate = make(map[string]*tls.Certificate)\n", "func (c certstore) indexed() certstore {\n\tc.NameToCertificate = make(map[string]*tls.Certificate)\n"}, {"\t\tfor _, san := range x509Cert.DNSNames {\n\t\t\tc.NameToCertificate[san] = cert\n\t\t}\n\t}\n}", "\t\tfor _, san := range x509Cert.DNSNames {\n\t\t\tc.NameToCertificate[san] = cert\n\t\t}\n\t}\n\treturn c\n}"}}, Expect: ""},
+			{Name: "value-receiver builder result dropped (index built on a copy)", File: "cert/store.go", Old: "\tcs := certstore{Certificates: certs}\n\tcs.BuildNameToCertificate()\n\ts.cs.Store(cs)\n", New: "\tcs := certstore{Certificates: certs}\n\tcs.indexed()\n\ts.cs.Store(cs)\n", More: []repl{{"func (c *certstore) BuildNameToCertificate() {\n\tc.NameToCertificate = make(map[string]*tls.Certificate)\n", "func (c certstore) indexed() certstore {\n\tc.NameToCertificate = make(map[string]*tls.Certificate)\n"}, {"\t\tfor _, san := range x509Cert.DNSNames {\n\t\t\tc.NameToCertificate[san] = cert\n\t\t}\n\t}\n}", "\t\tfor _, san := range x509Cert.DNSNames {\n\t\t\tc.NameToCertificate[san] = cert\n\t\t}\n\t}\n\treturn c\n}"}}, Expect: "C11.A1"},
+			{Name: "benign: pointer set everywhere (atomic.Pointer, *certstore parameter)", File: "cert/store.go", Old: "\tcs atomic.Value\n", New: "\tcs atomic.Pointer[certstore]\n", More: []repl{{"s.cs.Store(certstore{})", "s.cs.Store(&certstore{})"}, {"\tcs := certstore{Certificates: certs}\n\tcs.BuildNameToCertificate()\n\ts.cs.Store(cs)\n", "\tcs := &certstore{Certificates: certs}\n\tcs.BuildNameToCertificate()\n\ts.cs.Store(cs)\n"}, {"func (s *Store) certstore() certstore {\n\treturn s.cs.Load().(certstore)", "func (s *Store) certstore() *certstore {\n\treturn s.cs.Load()"}, {"func getCertificate(cs certstore,", "func getCertificate(cs *certstore,"}}, Expect: ""},
+			{Name: "benign: selection inlined into the handshake callback", File: "cert/source.go", Old: "\t\tGetCertificate: func(clientHello *tls.ClientHelloInfo) (cert *tls.Certificate, err error) {\n\t\t\tcert, err = getCertificate(store.certstore(), clientHello, strictMatch)\n\t\t\tif cert != nil {\n\t\t\t\treturn\n\t\t\t}\n", New: "\t\tGetCertificate: func(clientHello *tls.ClientHelloInfo) (cert *tls.Certificate, err error) {\n\t\t\tcs := store.certstore()\n\t\t\tif len(cs.Certificates) == 0 {\n\t\t\t\terr = ErrNoCertsStored\n\t\t\t} else if !strictMatch && (len(cs.Certificates) == 1 || cs.NameToCertificate == nil) {\n\t\t\t\treturn &cs.Certificates[0], nil\n\t\t\t} else {\n\t\t\t\tname := strings.TrimRight(strings.ToLower(clientHello.ServerName), \".\")\n\t\t\t\tif c, ok := cs.NameToCertificate[name]; ok {\n\t\t\t\t\treturn c, nil\n\t\t\t\t}\n\t\t\t\tlabels := strings.Split(name, \".\")\n\t\t\t\tfor i := range labels {\n\t\t\t\t\tlabels[i] = \"*\"\n\t\t\t\t\tif c, ok := cs.NameToCertificate[strings.Join(labels, \".\")]; ok {\n\t\t\t\t\t\treturn c, nil\n\t\t\t\t\t}\n\t\t\t\t}\n\t\t\t\tif strictMatch {\n\t\t\t\t\treturn nil, nil\n\t\t\t\t}\n\t\t\t\treturn &cs.Certificates[0], nil\n\t\t\t}\n", More: []repl{{"\t\"fmt\"\n", "\t\"fmt\"\n\t\"strings\"\n"}}, Expect: ""},
+			{Name: "inlined selection forgets the strict test at the end", File: "cert/source.go", Old: "\t\tGetCertificate: func(clientHello *tls.ClientHelloInfo) (cert *tls.Certificate, err error) {\n\t\t\tcert, err = getCertificate(store.certstore(), clientHello, strictMatch)\n\t\t\tif cert != nil {\n\t\t\t\treturn\n\t\t\t}\n", New: "\t\tGetCertificate: func(clientHello *tls.ClientHelloInfo) (cert *tls.Certificate, err error) {\n\t\t\tcs := store.certstore()\n\t\t\tif len(cs.Certificates) == 0 {\n\t\t\t\terr = ErrNoCertsStored\n\t\t\t} else if !strictMatch && (len(cs.Certificates) == 1 || cs.NameToCertificate == nil) {\n\t\t\t\treturn &cs.Certificates[0], nil\n\t\t\t} else {\n\t\t\t\tname := strings.TrimRight(strings.ToLower(clientHello.ServerName), \".\")\n\t\t\t\tif c, ok := cs.NameToCertificate[name]; ok {\n\t\t\t\t\treturn c, nil\n\t\t\t\t}\n\t\t\t\tlabels := strings.Split(name, \".\")\n\t\t\t\tfor i := range labels {\n\t\t\t\t\tlabels[i] = \"*\"\n\t\t\t\t\tif c, ok := cs.NameToCertificate[strings.Join(labels, \".\")]; ok {\n\t\t\t\t\t\treturn c, nil\n\t\t\t\t\t}\n\t\t\t\t}\n\t\t\t\treturn &cs.Certificates[0], nil\n\t\t\t}\n", More: []repl{{"\t\"fmt\"\n", "\t\"fmt\"\n\t\"strings\"\n"}}, Expect: "C11.M1"},
+			{Name: "benign: store loaded through a bound method value", File: "cert/source.go", Old: "\tx := &tls.Config{\n", New: "\tsnapshot := store.certstore\n\tx := &tls.Config{\n", More: []repl{{"getCertificate(store.certstore(), clientHello, strictMatch)", "getCertificate(snapshot(), clientHello, strictMatch)"}}, Expect: ""},
+			{Name: "bound method value called twice in one handshake", File: "cert/source.go", Old: "\tx := &tls.Config{\n", New: "\tsnapshot := store.certstore\n\tx := &tls.Config{\n", More: []repl{{"cert, err = getCertificate(store.certstore(), clientHello, strictMatch)", "cert, err = getCertificate(snapshot(), clientHello, strictMatch)\n\t\t\tif len(snapshot().Certificates) == 0 {\n\t\t\t\treturn nil, ErrNoCertsStored\n\t\t\t}"}}, Expect: "C11.A2"},
+			{Name: "benign: updates goroutine with an explicit select receive", File: "cert/source.go", Old: "\tgo func() {\n\t\tfor certs := range src.Certificates() {\n\t\t\tstore.SetCertificates(certs)\n\t\t}\n\t}()\n", New: "\tgo func() {\n\t\tch := src.Certificates()\n\t\tfor {\n\t\t\tselect {\n\t\t\tcase certs, ok := <-ch:\n\t\t\t\tif !ok {\n\t\t\t\t\treturn\n\t\t\t\t}\n\t\t\t\tstore.SetCertificates(certs)\n\t\t\t}\n\t\t}\n\t}()\n", Expect: ""},
 		},
 	})
 }
 
 func runC11(c *Ctx) {
-	runC11A(c)
-	runC11M(c)
-	runC11M3(c)
-	runC11M4(c)
-	runC11M5(c)
-	runLoopPacing(c, "C11.L1", []string{"cert"}, 2)
-	runConsulWatchLoops(c, "C11.L1", []string{"cert"}, 1)
+	m := newC11Model(c)
+	if m == nil {
+		return
+	}
+	runC11A(c, m)
+	runC11M(c, m)
+	runC11M3(c, m)
+	runC11M4(c, m)
+	runC11M5(c, m)
+	runC11L1(c)
 	runC11L2(c)
 	runC11L3(c)
-	runC11L4(c)
+	runC11L4(c, m)
 }
 
-func runC11A(c *Ctx) {
-	set := c.method("cert", "Store", "SetCertificates")
-	build := c.method("cert", "certstore", "BuildNameToCertificate")
-	if !c.need("C11.A1", set, "cert.Store.SetCertificates") || !c.need("C11.A1", build, "cert.certstore.BuildNameToCertificate") {
-		return
+// ---- the model: who plays which role in package cert ----------------------------------------------------------------
+
+// c11isCertSlice: t is []tls.Certificate, under whatever name (alias, defined slice type).
+func c11isCertSlice(t types.Type) bool {
+	sl, ok := types.Unalias(t).Underlying().(*types.Slice)
+	return ok && namedIs(sl.Elem(), "crypto/tls.Certificate")
+}
+
+// c11isCertPtr: t is *tls.Certificate.
+func c11isCertPtr(t types.Type) bool {
+	p, ok := types.Unalias(t).Underlying().(*types.Pointer)
+	return ok && namedIs(p.Elem(), "crypto/tls.Certificate")
+}
+
+type c11Model struct {
+	c        *Ctx
+	setType  *types.Named    // the certificate set (struct with a []tls.Certificate field), found through what is published atomically
+	certsFld string          // its field of type []tls.Certificate
+	idxFld   string          // its string-keyed map field (the name index)
+	idxType  string          // type string of the index map
+	cells    map[string]bool // the atomic cells the set is published in ("cert.Store.cs")
+	entry    *ssa.Function   // publish entry (Store.SetCertificates by role)
+	entryReg []*ssa.Function
+	cbs      []*ssa.Function // handshake callbacks (values of tls.Config.GetCertificate)
+	hsReg    []*ssa.Function // region below the handshake callbacks
+}
+
+// c11cellKey names the memory cell an atomic operation works on: a field of a named struct or a package-level variable.
+func c11cellKey(cell ssa.Value) string {
+	switch x := cell.(type) {
+	case *ssa.FieldAddr:
+		t := x.X.Type()
+		if p, ok := t.Underlying().(*types.Pointer); ok {
+			t = p.Elem()
+		}
+		return typeStr(t) + "." + fieldName(x.X.Type(), x.Field)
+	case *ssa.Global:
+		return x.Pkg.Pkg.Path() + "." + x.Name()
+	case *ssa.UnOp:
+		if x.Op == token.MUL {
+			return c11cellKey(x.X)
+		}
 	}
-	var storeI, buildI ssa.Instruction
-	eachInstr(set, func(i ssa.Instruction) {
-		cc := callCommon(i)
-		if cc == nil {
+	return ""
+}
+
+// c11setStruct: t (through one pointer) is a named struct with a []tls.Certificate field -> (named, certs field, index field, index type).
+func c11setStruct(t types.Type) (*types.Named, string, string, string) {
+	if p, ok := t.Underlying().(*types.Pointer); ok {
+		t = p.Elem()
+	}
+	n, ok := types.Unalias(t).(*types.Named)
+	if !ok {
+		return nil, "", "", ""
+	}
+	st, ok := n.Underlying().(*types.Struct)
+	if !ok {
+		return nil, "", "", ""
+	}
+	certs, idx, idxT := "", "", ""
+	for i := 0; i < st.NumFields(); i++ {
+		f := st.Field(i)
+		if c11isCertSlice(f.Type()) && certs == "" {
+			certs = f.Name()
+		}
+		if mp, ok := f.Type().Underlying().(*types.Map); ok && idx == "" {
+			if b, ok := mp.Key().Underlying().(*types.Basic); ok && b.Kind() == types.String {
+				idx, idxT = f.Name(), typeStr(f.Type())
+			}
+		}
+	}
+	if certs == "" {
+		return nil, "", "", ""
+	}
+	return n, certs, idx, idxT
+}
+
+func newC11Model(c *Ctx) *c11Model {
+	m := &c11Model{c: c, cells: map[string]bool{}}
+	if c.spkg("cert") == nil {
+		c.undecided("C11.A1", "anchor|package cert", "package cert not found")
+		return nil
+	}
+	// the set type and its cells: what package cert publishes atomically
+	for _, f := range c.fnsWhere("cert", func(*ssa.Function) bool { return true }) {
+		eachInstr(f, func(i ssa.Instruction) {
+			kind, cell, val, ok := atomicOp(callCommon(i))
+			if !ok || (kind != "store" && kind != "swap" && kind != "cas") || val == nil {
+				return
+			}
+			for _, v := range append(publishedValue(val), stripIface(val)) {
+				if n, cf, xf, xt := c11setStruct(v.Type()); n != nil {
+					if m.setType == nil || (m.idxFld == "" && xf != "") {
+						m.setType, m.certsFld, m.idxFld, m.idxType = n, cf, xf, xt
+					}
+					if k := c11cellKey(cell); k != "" && types.Identical(n, m.setType) {
+						m.cells[k] = true
+					}
+				}
+			}
+		})
+	}
+	if m.setType == nil {
+		c.undecided("C11.A1", "anchor|atomically published certificate set", "package cert publishes no struct with a []tls.Certificate field through sync/atomic")
+		return nil
+	}
+	if m.idxFld == "" {
+		c.undecided("C11.M2", "anchor|name index of the certificate set", "the published set "+typeStr(m.setType)+" has no string-keyed map field")
+	}
+	// publish entry: takes the new certificates, publishes below it
+	m.entry = c.fnByRole("cert", "SetCertificates", func(f *ssa.Function) bool {
+		has := false
+		for _, p := range f.Params {
+			if c11isCertSlice(p.Type()) {
+				has = true
+			}
+		}
+		if !has || f.Parent() != nil {
+			return false
+		}
+		for _, g := range c.region(f) {
+			pub := false
+			eachInstr(g, func(i ssa.Instruction) {
+				if m.isPublishTry(i) {
+					pub = true
+				}
+			})
+			if pub {
+				return true
+			}
+		}
+		return false
+	})
+	if m.entry != nil {
+		m.entryReg = c.region(m.entry)
+	}
+	// handshake callbacks: the functions a tls.Config.GetCertificate can denote
+	seen := map[*ssa.Function]bool{}
+	for _, f := range c.fnsWhere("cert", func(*ssa.Function) bool { return true }) {
+		eachInstr(f, func(i ssa.Instruction) {
+			st, ok := i.(*ssa.Store)
+			if !ok {
+				return
+			}
+			if _, ok := fieldOf(st.Addr, "tls.Config", "GetCertificate"); !ok {
+				return
+			}
+			for _, g := range c11funcsOf(st.Val, 0) {
+				if !seen[g] && len(g.Blocks) > 0 {
+					seen[g] = true
+					m.cbs = append(m.cbs, g)
+				}
+			}
+		})
+	}
+	if len(m.cbs) == 0 {
+		// no visible assignment: fall back to the functions of package cert that have the callback's signature and use the set
+		for _, f := range c.fnsWhere("cert", func(f *ssa.Function) bool {
+			s := f.Signature
+			return s.Params().Len() == 1 && typeStr(s.Params().At(0).Type()) == "*crypto/tls.ClientHelloInfo" &&
+				s.Results().Len() == 2 && c11isCertPtr(s.Results().At(0).Type()) && c11mayExec(f, m.isSetLoad, 0)
+		}) {
+			m.cbs = append(m.cbs, f)
+		}
+	}
+	m.hsReg = c11region(c, m.cbs...)
+	return m
+}
+
+// c11funcsOf is funcsOf that also follows a function-typed parameter of a helper to the arguments at its call sites and a
+// captured function variable to what the enclosing function bound.
+func c11funcsOf(v ssa.Value, depth int) []*ssa.Function {
+	out := funcsOf(v)
+	if len(out) > 0 || depth > 3 || v == nil {
+		return out
+	}
+	for {
+		if ct, ok := v.(*ssa.ChangeType); ok {
+			v = ct.X
+			continue
+		}
+		if u, ok := v.(*ssa.UnOp); ok && u.Op == token.MUL {
+			if fv, isFV := u.X.(*ssa.FreeVar); isFV {
+				v = fv
+			}
+		}
+		break
+	}
+	switch x := v.(type) {
+	case *ssa.Parameter:
+		if x.Parent() == nil {
+			return nil
+		}
+		for k, q := range x.Parent().Params {
+			if q != x {
+				continue
+			}
+			for _, s := range gSites[x.Parent()] {
+				if cc := s.Common(); k < len(cc.Args) {
+					out = append(out, c11funcsOf(cc.Args[k], depth+1)...)
+				}
+			}
+		}
+	case *ssa.FreeVar:
+		fn := x.Parent()
+		if fn == nil || fn.Parent() == nil {
+			return nil
+		}
+		for k, fv := range fn.FreeVars {
+			if fv != x {
+				continue
+			}
+			eachInstr(fn.Parent(), func(i ssa.Instruction) {
+				mc, ok := i.(*ssa.MakeClosure)
+				if !ok || mc.Fn != fn || k >= len(mc.Bindings) {
+					return
+				}
+				if a, isAlloc := mc.Bindings[k].(*ssa.Alloc); isAlloc {
+					for _, r := range *a.Referrers() {
+						if st, ok := r.(*ssa.Store); ok && st.Addr == a {
+							out = append(out, c11funcsOf(st.Val, depth+1)...)
+						}
+					}
+					return
+				}
+				out = append(out, c11funcsOf(mc.Bindings[k], depth+1)...)
+			})
+		}
+	}
+	return out
+}
+
+// c11callee: the repository function a call denotes — its static callee, or the single function a local or captured
+// function variable can hold. nil for interface calls and calls that cannot be resolved.
+func c11callee(cc *ssa.CallCommon) *ssa.Function {
+	if cc == nil || cc.IsInvoke() {
+		return nil
+	}
+	if sc := cc.StaticCallee(); sc != nil {
+		if !isRepoFn(sc) {
+			return nil
+		}
+		return unwrap(sc)
+	}
+	if _, isBuiltin := cc.Value.(*ssa.Builtin); isBuiltin {
+		return nil
+	}
+	var one *ssa.Function
+	for _, f := range c11funcsOf(cc.Value, 0) {
+		if one != nil && one != f {
+			return nil
+		}
+		one = f
+	}
+	if one != nil && !isRepoFn(one) {
+		return nil
+	}
+	return one
+}
+
+// c11region is Ctx.region that also enters the closures reached through calls of captured function variables.
+func c11region(c *Ctx, roots ...*ssa.Function) []*ssa.Function {
+	out := c.region(roots...)
+	seen := map[*ssa.Function]bool{}
+	for _, f := range out {
+		seen[f] = true
+	}
+	for k := 0; k < len(out) && k < 200; k++ {
+		eachInstr(out[k], func(i ssa.Instruction) {
+			cc := callCommon(i)
+			if cc == nil || cc.StaticCallee() != nil {
+				return
+			}
+			if g := c11callee(cc); g != nil && !seen[g] && rootPkg(g) == rootPkg(out[k]) {
+				for _, h := range c.region(g) {
+					if !seen[h] {
+						seen[h] = true
+						out = append(out, h)
+					}
+				}
+			}
+		})
+	}
+	return out
+}
+
+// c11mayExec is mayExec with calls resolved by c11callee.
+func c11mayExec(fn *ssa.Function, pred func(ssa.Instruction) bool, depth int) bool {
+	if fn == nil || len(fn.Blocks) == 0 || depth > 4 {
+		return false
+	}
+	hit := false
+	eachInstr(fn, func(i ssa.Instruction) {
+		if hit {
 			return
 		}
-		if calleeName(cc) == "(*sync/atomic.Value).Store" {
-			storeI = i
+		if pred(i) {
+			hit = true
+			return
 		}
-		if cc.StaticCallee() == build {
-			buildI = i
+		if _, isGo := i.(*ssa.Go); isGo {
+			return
+		}
+		if g := c11callee(callCommon(i)); g != nil && g != fn && c11mayExec(g, pred, depth+1) {
+			hit = true
 		}
 	})
-	if storeI == nil {
-		c.undecided("C11.A1", "(*cert.Store).SetCertificates|atomic publish", "no atomic.Value.Store in SetCertificates")
-		return
+	return hit
+}
+
+func c11liftMay(pred func(ssa.Instruction) bool) func(ssa.Instruction) bool {
+	return func(i ssa.Instruction) bool {
+		if pred(i) {
+			return true
+		}
+		call, ok := i.(*ssa.Call)
+		if !ok {
+			return false
+		}
+		g := c11callee(&call.Call)
+		return g != nil && c11mayExec(g, pred, 1)
 	}
-	c.check("C11.A1", "(*cert.Store).SetCertificates|index built before publish", storeI.Pos(), buildI != nil && dominatesInstr(buildI, storeI),
-		"the name index must be complete before the set is published: a handshake that loads the set in between sees certificates without an index (every name falls back to the first certificate, or to none with strict matching)")
-	// what is stored is the set the index was built on
-	if buildI != nil {
-		recv := callCommon(buildI).Args[0]
-		v := stripIface(callCommon(storeI).Args[1])
-		same := derives(v, func(x ssa.Value) bool { return x == recv })
-		c.check("C11.A1", "(*cert.Store).SetCertificates|published set is the indexed one", storeI.Pos(), same, "the value published must be the set the index was built on")
+}
+
+// isPublish: an atomic store/swap of a certificate set into one of the set's cells.
+func (m *c11Model) isPublish(i ssa.Instruction) bool {
+	kind, cell, val, ok := atomicOp(callCommon(i))
+	if !ok || (kind != "store" && kind != "swap") || val == nil {
+		return false
 	}
-	// nothing writes after publish (generic S5 restricted to this function)
-	v := stripIface(callCommon(storeI).Args[1])
-	bad := ""
-	eachInstr(set, func(j ssa.Instruction) {
-		if j == storeI || !pathAvoiding(storeI, j, nil) {
+	if _, isGo := i.(*ssa.Go); isGo {
+		return false
+	}
+	return m.cells[c11cellKey(cell)]
+}
+
+// isPublishTry: isPublish, or a compare-and-swap that may publish.
+func (m *c11Model) isPublishTry(i ssa.Instruction) bool {
+	if m.isPublish(i) {
+		return true
+	}
+	kind, cell, val, ok := atomicOp(callCommon(i))
+	if _, isGo := i.(*ssa.Go); isGo || !ok || kind != "cas" || val == nil {
+		return false
+	}
+	return m.cells[c11cellKey(cell)]
+}
+
+// isSetLoad: an atomic load of one of the set's cells.
+func (m *c11Model) isSetLoad(i ssa.Instruction) bool {
+	kind, cell, _, ok := atomicOp(callCommon(i))
+	return ok && kind == "load" && m.cells[c11cellKey(cell)]
+}
+
+func (m *c11Model) isSet(t types.Type) bool {
+	if p, ok := t.Underlying().(*types.Pointer); ok {
+		t = p.Elem()
+	}
+	return types.Identical(types.Unalias(t), m.setType)
+}
+
+// isIndexMap: v is a value of the index map's type (the field itself, a local copy of it, a map under construction).
+func (m *c11Model) isIndexMap(v ssa.Value) bool {
+	return m.idxType != "" && typeStr(v.Type()) == m.idxType
+}
+
+// isIndexWrite: the instruction fills or installs a name index: a map update on a map of the index type, or a store to
+// the index field of a set.
+func (m *c11Model) isIndexWrite(i ssa.Instruction) bool {
+	switch x := i.(type) {
+	case *ssa.MapUpdate:
+		return m.isIndexMap(x.Map)
+	case *ssa.Store:
+		if fa, ok := x.Addr.(*ssa.FieldAddr); ok && m.isSet(fa.X.Type()) && fieldName(fa.X.Type(), fa.Field) == m.idxFld {
+			return true
+		}
+	}
+	return false
+}
+
+// ---- A1 / A2 ---------------------------------------------------------------------------------------------------------
+
+// c11root strips the load that turns a local cell into the value published (atomic.Value.Store(cs) publishes *(&cs)).
+func c11root(v ssa.Value) ssa.Value {
+	if u, ok := v.(*ssa.UnOp); ok && u.Op == token.MUL {
+		return u.X
+	}
+	return v
+}
+
+// indexedBefore: at instruction at (in its function), the set whose value is v has had its index built — an index write
+// on it, or a call of a helper that builds an index and either receives the set or produces it, dominates at. If the set
+// is a parameter of an unexported helper, every call site of the helper must satisfy this instead.
+func (m *c11Model) indexedBefore(at ssa.Instruction, v ssa.Value, depth int) bool {
+	root := c11root(v)
+	related := func(a ssa.Value) bool {
+		if a == root || a == v {
+			return true
+		}
+		if _, isConst := a.(*ssa.Const); isConst {
+			return false
+		}
+		if !m.isSet(a.Type()) {
+			return false
+		}
+		return derives(v, func(x ssa.Value) bool { return x == a }) || derives(a, func(x ssa.Value) bool { return x == root })
+	}
+	found := false
+	eachInstr(at.Parent(), func(i ssa.Instruction) {
+		if found || i == at || !dominatesInstr(i, at) {
 			return
 		}
-		root := v
-		if u, ok := v.(*ssa.UnOp); ok && u.Op == token.MUL {
-			root = u.X
+		switch x := i.(type) {
+		case *ssa.Store:
+			if m.isIndexWrite(i) {
+				if fa := x.Addr.(*ssa.FieldAddr); related(fa.X) || addrRootedAt(fa.X, root) {
+					found = true
+				}
+			}
+		case *ssa.MapUpdate:
+			if m.isIndexWrite(i) && (addrRootedAt(x.Map, root) || derives(v, func(y ssa.Value) bool { return y == x.Map })) {
+				found = true
+			}
+		case *ssa.Call:
+			sc := x.Call.StaticCallee()
+			if sc == nil || !isRepoFn(sc) || !mayExec(unwrap(sc), m.isIndexWrite, 0) {
+				return
+			}
+			if derives(v, func(y ssa.Value) bool { return y == ssa.Value(x) }) {
+				found = true // the set is what the builder returned
+			}
+			for _, a := range x.Call.Args {
+				if _, isPtr := a.Type().Underlying().(*types.Pointer); isPtr && related(a) {
+					found = true // the builder worked on this set in place (a set passed by value is a copy)
+				}
+			}
 		}
-		if w, ok := writesVia(c, j, root); ok {
+	})
+	if found {
+		return true
+	}
+	// the set comes in as a parameter: the callers must have indexed it
+	fn := at.Parent()
+	if depth < 2 && fn != m.entry && onlyStaticallyCalled(fn) && len(gSites[fn]) > 0 {
+		for k, p := range fn.Params {
+			if !derives(v, func(x ssa.Value) bool { return x == ssa.Value(p) }) || !m.isSet(p.Type()) {
+				continue
+			}
+			all := true
+			for _, s := range gSites[fn] {
+				cc := s.Common()
+				if k >= len(cc.Args) || !m.indexedBefore(s, cc.Args[k], depth+1) {
+					all = false
+				}
+			}
+			return all
+		}
+	}
+	return false
+}
+
+// writtenAfter: some instruction that can execute after at (in at's function) writes memory rooted at the published set.
+func (m *c11Model) writtenAfter(at ssa.Instruction, v ssa.Value) string {
+	root := c11root(v)
+	bad := ""
+	eachInstr(at.Parent(), func(j ssa.Instruction) {
+		if j == at || !pathAvoiding(at, j, nil) {
+			return
+		}
+		if w, ok := writesVia(m.c, j, root); ok {
 			bad = w
 		}
 	})
-	c.check("C11.A1", "(*cert.Store).SetCertificates|no write after publish", storeI.Pos(), bad == "", "after the atomic publish the set is read by concurrent handshakes; "+bad+" mutates it")
+	return bad
+}
+
+func runC11A(c *Ctx, m *c11Model) {
+	if m.entry == nil {
+		c.undecided("C11.A1", "anchor|publish entry", "no function of package cert takes a []tls.Certificate and publishes a set below it (Store.SetCertificates by role)")
+	} else {
+		n := 0
+		eachInstrOf(m.entryReg, func(f *ssa.Function, i ssa.Instruction) {
+			if !m.isPublishTry(i) {
+				return
+			}
+			n++
+			_, _, val, _ := atomicOp(callCommon(i))
+			built, bad := false, ""
+			cands := publishedValue(val)
+			if raw := stripIface(val); len(cands) != 1 || cands[0] != raw {
+				cands = append(cands, raw)
+			}
+			for _, v := range cands {
+				if m.indexedBefore(i, v, 0) {
+					built = true
+				}
+				if w := m.writtenAfter(i, v); w != "" {
+					bad = w
+				}
+				// the helper that publishes its parameter: what the callers do after the call counts as well
+				if fn := i.Parent(); fn != m.entry && onlyStaticallyCalled(fn) {
+					for k, p := range fn.Params {
+						if m.isSet(p.Type()) && derives(v, func(x ssa.Value) bool { return x == ssa.Value(p) }) {
+							for _, s := range gSites[fn] {
+								if cc := s.Common(); k < len(cc.Args) {
+									if w := m.writtenAfter(s, cc.Args[k]); w != "" {
+										bad = w
+									}
+								}
+							}
+						}
+					}
+				}
+			}
+			c.check("C11.A1", fnKey(m.entry)+"|index built before publish", i.Pos(), built,
+				"the name index of the published set must be complete before the set is published (an index write on it, or a call of the index builder on it, must dominate the atomic store): a handshake that loads the set in between sees certificates without an index (every name falls back to the first certificate, or to none with strict matching)")
+			c.check("C11.A1", fnKey(m.entry)+"|no write after publish", i.Pos(), bad == "", "after the atomic publish the set is read by concurrent handshakes; "+bad+" mutates it")
+		})
+		c.atLeast("C11.A1", "atomic publishes of a certificate set below "+fnKey(m.entry), n, 1)
+	}
 
 	// A2
-	getCert := c.fn("cert", "getCertificate")
-	certstore := c.method("cert", "Store", "certstore")
-	tlsConfig := c.fn("cert", "TLSConfig")
-	if !c.need("C11.A2", getCert, "cert.getCertificate") || !c.need("C11.A2", certstore, "cert.Store.certstore") || !c.need("C11.A2", tlsConfig, "cert.TLSConfig") {
+	if len(m.cbs) == 0 {
+		c.undecided("C11.A2", "anchor|handshake callbacks", "no function is assigned to tls.Config.GetCertificate in package cert")
 		return
 	}
 	n := 0
-	for _, f := range withAnon(tlsConfig) {
+	for _, f := range m.hsReg {
 		var loads []ssa.Instruction
+		isLoad := c11liftMay(m.isSetLoad)
 		eachInstr(f, func(i ssa.Instruction) {
-			if staticCalleeIs(i, certstore) {
+			if _, isCall := i.(*ssa.Call); isCall && isLoad(i) {
 				loads = append(loads, i)
 			}
 		})
@@ -119,283 +634,449 @@ func runC11A(c *Ctx) {
 			continue
 		}
 		n++
-		multi := len(loads) > 1 && func() bool {
-			for _, a := range loads {
-				for _, b := range loads {
-					if pathAvoiding(a, b, nil) {
-						return true
-					}
+		multi := false
+		for _, a := range loads {
+			for _, b := range loads {
+				if pathAvoiding(a, b, nil) {
+					multi = true
 				}
 			}
-			return false
-		}()
-		if len(loads) == 1 && pathAvoiding(loads[0], loads[0], nil) {
-			multi = true
 		}
 		c.check("C11.A2", fnKey(f)+"|one load of the certificate set per handshake", loads[0].Pos(), !multi,
-			"GetCertificate must load the published set once: two loads on one path can straddle SetCertificates, so one handshake decides on a mixture of two sets")
+			"a handshake must load the published set once: two loads on one path can straddle a publish, so one handshake decides on a mixture of two sets")
 	}
-	c.atLeast("C11.A2", "handshake callbacks that load the store", n, 1)
-	r := c.reach(getCert)
-	c.check("C11.A2", "cert.getCertificate|works on its parameter only", getCert.Pos(), !r[certstore], "getCertificate must not reload the store; it decides on the snapshot it was given")
+	c.atLeast("C11.A2", "functions below the handshake callbacks that load the store", n, 1)
+	// the same through the checker's call graph (dynamic calls included)
+	var loaders []*ssa.Function
+	for _, f := range c.fnsWhere("cert", func(f *ssa.Function) bool {
+		hit := false
+		eachInstr(f, func(i ssa.Instruction) {
+			if m.isSetLoad(i) {
+				hit = true
+			}
+		})
+		return hit
+	}) {
+		loaders = append(loaders, f)
+	}
+	for _, f := range m.hsReg {
+		takesSet := false
+		for _, p := range f.Params {
+			if m.isSet(p.Type()) {
+				takesSet = true
+			}
+		}
+		if !takesSet {
+			continue
+		}
+		r := c.reach(f)
+		reloads := false
+		for _, l := range loaders {
+			if r[l] {
+				reloads = true
+			}
+		}
+		c.check("C11.A2", fnKey(f)+"|works on its parameter only", f.Pos(), !reloads, "a function that is handed the certificate set must not reload the store; it decides on the snapshot it was given")
+	}
 }
 
-func runC11M(c *Ctx) {
-	getCert := c.fn("cert", "getCertificate")
-	if getCert == nil {
-		return
+// ---- M1 / M2 ---------------------------------------------------------------------------------------------------------
+
+// c11strictSense: v is a strictness flag — a bool parameter, captured variable or field (not a computed verdict), possibly
+// negated or passed down through helpers. +1: true means strict; -1: true means fallback allowed; 0: not a flag.
+func (m *c11Model) strictSense(v ssa.Value, depth int) int {
+	if v == nil || depth > 6 {
+		return 0
 	}
-	var strict *ssa.Parameter
-	for _, p := range getCert.Params {
-		if p.Name() == "strictMatch" || typeStr(p.Type()) == "bool" {
-			strict = p
+	isBool := func(t types.Type) bool {
+		b, ok := t.Underlying().(*types.Basic)
+		return ok && b.Kind() == types.Bool
+	}
+	// a captured variable: what the enclosing function bound (a value, or the cell of a variable captured by reference)
+	if fv, ok := v.(*ssa.FreeVar); ok {
+		fn := fv.Parent()
+		if fn == nil || fn.Parent() == nil {
+			return 0
 		}
-	}
-	if strict == nil {
-		c.undecided("C11.M1", "cert.getCertificate|strict parameter", "no bool parameter")
-		return
-	}
-	nFallback, nStrictMiss := 0, 0
-	eachInstr(getCert, func(i ssa.Instruction) {
-		r, ok := i.(*ssa.Return)
-		if !ok || len(r.Results) != 2 {
-			return
-		}
-		// fallback: &cs.Certificates[0]
-		if ia, ok := r.Results[0].(*ssa.IndexAddr); ok {
-			if k, isK := constInt(ia.Index); isK && k == 0 && strings.HasSuffix(accessPath(ia.X), "Certificates") {
-				nFallback++
-				notStrict := false
-				for _, f := range factsAt(r.Block()) {
-					if f.Cond == strict && !f.Truth {
-						notStrict = true
+		sense := 0
+		for k, x := range fn.FreeVars {
+			if x != fv {
+				continue
+			}
+			eachInstr(fn.Parent(), func(i ssa.Instruction) {
+				mc, ok := i.(*ssa.MakeClosure)
+				if !ok || mc.Fn != fn || k >= len(mc.Bindings) || sense != 0 {
+					return
+				}
+				switch b := mc.Bindings[k].(type) {
+				case *ssa.Alloc:
+					for _, r := range *b.Referrers() {
+						if st, ok := r.(*ssa.Store); ok && st.Addr == b && sense == 0 {
+							sense = m.strictSense(st.Val, depth+1)
+						}
+					}
+				case *ssa.FreeVar:
+					sense = m.strictSense(b, depth+1)
+				default:
+					if isBool(b.Type()) {
+						sense = m.strictSense(b, depth+1)
 					}
 				}
-				c.check("C11.M1", "cert.getCertificate|fallback to the first certificate only without strict matching", r.Pos(), notStrict,
-					"returning the first certificate is the fallback for 'no name matched'; with strict matching the listener must present no certificate instead")
+			})
+		}
+		return sense
+	}
+	if !isBool(v.Type()) {
+		return 0
+	}
+	switch x := v.(type) {
+	case *ssa.UnOp:
+		if x.Op == token.NOT {
+			return -m.strictSense(x.X, depth+1)
+		}
+		if x.Op != token.MUL {
+			return 0
+		}
+		switch a := x.X.(type) {
+		case *ssa.Alloc: // local cell
+			for _, r := range *a.Referrers() {
+				if st, ok := r.(*ssa.Store); ok && st.Addr == a {
+					if s := m.strictSense(st.Val, depth+1); s != 0 {
+						return s
+					}
+				}
+			}
+			return 0
+		case *ssa.FreeVar:
+			return m.strictSense(a, depth+1)
+		case *ssa.FieldAddr:
+			if m.isSet(a.X.Type()) || namedIs(a.X.Type(), "tls.ClientHelloInfo") {
+				return 0
+			}
+			return m.fieldSense(a.X.Type(), a.Field, depth)
+		}
+		return 0
+	case *ssa.Field:
+		if m.isSet(x.X.Type()) {
+			return 0
+		}
+		return m.fieldSense(x.X.Type(), x.Field, depth)
+	case *ssa.BinOp:
+		if x.Op == token.EQL || x.Op == token.NEQ {
+			if k, ok := constBool(x.Y); ok {
+				s := m.strictSense(x.X, depth+1)
+				if k == (x.Op == token.NEQ) {
+					s = -s
+				}
+				return s
 			}
 		}
-		if isNilConst(r.Results[0]) && isNilConst(r.Results[1]) {
-			for _, f := range factsAt(r.Block()) {
-				if f.Cond == strict && f.Truth {
-					nStrictMiss++
+		return 0
+	case *ssa.Parameter:
+		fn := x.Parent()
+		for k, p := range fn.Params {
+			if p != x {
+				continue
+			}
+			for _, s := range gSites[fn] {
+				if cc := s.Common(); k < len(cc.Args) {
+					if sn := m.strictSense(cc.Args[k], depth+1); sn != 0 {
+						return sn
+					}
 				}
 			}
 		}
-	})
-	c.atLeast("C11.M1", "fallback returns in getCertificate", nFallback, 2)
-	c.check("C11.M1", "cert.getCertificate|strict miss returns no certificate", getCert.Pos(), nStrictMiss >= 1, "with strict matching a miss must return (nil, nil)")
+		return 1 // the flag as it enters the package (TLSConfig's strictMatch): true means strict
+	}
+	return 0
+}
 
-	// M2: lookups in NameToCertificate
-	nLk := 0
-	eachInstr(getCert, func(i ssa.Instruction) {
+// fieldSense: the sense of a bool field: what is stored into it anywhere in package cert, +1 if nothing is visible.
+func (m *c11Model) fieldSense(structT types.Type, field int, depth int) int {
+	name := fieldName(structT, field)
+	sense := 0
+	for _, f := range m.c.fnsWhere("cert", func(*ssa.Function) bool { return true }) {
+		eachInstr(f, func(i ssa.Instruction) {
+			st, ok := i.(*ssa.Store)
+			if !ok || sense != 0 {
+				return
+			}
+			fa, ok := st.Addr.(*ssa.FieldAddr)
+			if !ok || fieldName(fa.X.Type(), fa.Field) != name {
+				return
+			}
+			a, b := fa.X.Type(), structT
+			if p, ok := a.Underlying().(*types.Pointer); ok {
+				a = p.Elem()
+			}
+			if p, ok := b.Underlying().(*types.Pointer); ok {
+				b = p.Elem()
+			}
+			if types.Identical(a, b) {
+				sense = m.strictSense(st.Val, depth+1)
+			}
+		})
+	}
+	if sense == 0 {
+		return 1
+	}
+	return sense
+}
+
+// strictKnown: the facts at b say whether strict matching is on: +1 strict, -1 not strict, 0 unknown.
+func (m *c11Model) strictKnown(b *ssa.BasicBlock) int {
+	for _, f := range factsAt(b) {
+		if s := m.strictSense(f.Cond, 0); s != 0 {
+			if !f.Truth {
+				s = -s
+			}
+			return s
+		}
+	}
+	return 0
+}
+
+// c11at is a point control passed through: a block, or the edge from a block to one of its successors (the edge a phi
+// operand comes in on carries the branch condition even when the predecessor block itself does not).
+type c11at struct{ b, to *ssa.BasicBlock }
+
+func (m *c11Model) strictKnownAt(at c11at) int {
+	if at.b == nil {
+		return 0
+	}
+	if s := m.strictKnown(at.b); s != 0 {
+		return s
+	}
+	if at.to == nil || len(at.b.Instrs) == 0 || len(at.b.Succs) != 2 || at.b.Succs[0] == at.b.Succs[1] {
+		return 0
+	}
+	iff, ok := at.b.Instrs[len(at.b.Instrs)-1].(*ssa.If)
+	if !ok {
+		return 0
+	}
+	s := m.strictSense(iff.Cond, 0)
+	if at.b.Succs[1] == at.to {
+		s = -s
+	}
+	return s
+}
+
+// c11leaf is one origin of a returned certificate: the value and the points control passed through on the way from that
+// origin to the handshake callback's return (return blocks, call blocks, phi edges).
+type c11leaf struct {
+	v     ssa.Value
+	chain []c11at
+}
+
+// certOrigins walks a returned *tls.Certificate back through phis, local cells and the results of repository helpers.
+func c11certOrigins(v ssa.Value, chain []c11at, depth int, seen map[ssa.Value]bool, out *[]c11leaf) {
+	if v == nil || depth > 8 {
+		return
+	}
+	if seen[v] {
+		return
+	}
+	seen[v] = true
+	defer delete(seen, v)
+	with := func(b ...c11at) []c11at {
+		return append(append([]c11at{}, chain...), b...)
+	}
+	results := func(call *ssa.Call, idx int) bool {
+		sc := c11callee(&call.Call)
+		if sc == nil || len(sc.Blocks) == 0 {
+			return false
+		}
+		eachInstr(sc, func(i ssa.Instruction) {
+			if r, ok := i.(*ssa.Return); ok && idx < len(r.Results) {
+				c11certOrigins(r.Results[idx], with(c11at{b: call.Block()}, c11at{b: r.Block()}), depth+1, seen, out)
+			}
+		})
+		return true
+	}
+	switch x := v.(type) {
+	case *ssa.Phi:
+		for k, e := range x.Edges {
+			c11certOrigins(e, with(c11at{b: x.Block().Preds[k], to: x.Block()}), depth+1, seen, out)
+		}
+		return
+	case *ssa.Extract:
+		if call, ok := x.Tuple.(*ssa.Call); ok && results(call, x.Index) {
+			return
+		}
+	case *ssa.Call:
+		if results(x, 0) {
+			return
+		}
+	case *ssa.UnOp:
+		if x.Op == token.MUL {
+			if _, ok := x.X.(*ssa.Alloc); ok {
+				for _, d := range defsOf(x) {
+					c11certOrigins(d.Val, with(c11at{b: d.Block}), depth+1, seen, out)
+				}
+				return
+			}
+		}
+	case *ssa.ChangeType:
+		c11certOrigins(x.X, chain, depth+1, seen, out)
+		return
+	}
+	if i, ok := v.(ssa.Instruction); ok && i.Block() != nil {
+		chain = with(c11at{b: i.Block()})
+	}
+	*out = append(*out, c11leaf{v, chain})
+}
+
+// c11isCertSeq: a slice or array of tls.Certificate or *tls.Certificate.
+func c11isCertSeq(t types.Type) bool {
+	var el types.Type
+	switch u := types.Unalias(t).Underlying().(type) {
+	case *types.Slice:
+		el = u.Elem()
+	case *types.Array:
+		el = u.Elem()
+	default:
+		return false
+	}
+	return namedIs(el, "crypto/tls.Certificate")
+}
+
+// isFirstCert: v is the address (or value) of an element of a list of tls.Certificate taken by position — the default
+// certificate &cs.Certificates[0] (any position counts: a certificate chosen by position is not chosen by name).
+func c11isFirstCert(v ssa.Value) bool {
+	if u, ok := v.(*ssa.UnOp); ok && u.Op == token.MUL {
+		v = u.X
+	}
+	switch x := v.(type) {
+	case *ssa.IndexAddr:
+		t := x.X.Type()
+		if p, ok := t.Underlying().(*types.Pointer); ok {
+			t = p.Elem()
+		}
+		return c11isCertSeq(t)
+	case *ssa.Index:
+		return c11isCertSeq(x.X.Type())
+	}
+	return false
+}
+
+func runC11M(c *Ctx, m *c11Model) {
+	if len(m.cbs) == 0 {
+		c.undecided("C11.M1", "anchor|handshake callbacks", "no function is assigned to tls.Config.GetCertificate in package cert")
+		return
+	}
+	// M1: what the callbacks return
+	type verdict struct {
+		pos token.Pos
+		ok  bool
+	}
+	fallback := map[ssa.Value]*verdict{}
+	var order []ssa.Value
+	nStrictMiss := 0
+	for _, cb := range m.cbs {
+		eachInstr(cb, func(i ssa.Instruction) {
+			r, ok := i.(*ssa.Return)
+			if !ok || len(r.Results) == 0 {
+				return
+			}
+			var leaves []c11leaf
+			c11certOrigins(r.Results[0], []c11at{{b: r.Block()}}, 0, map[ssa.Value]bool{}, &leaves)
+			for _, l := range leaves {
+				notStrict, strict := false, false
+				for _, at := range l.chain {
+					switch s := m.strictKnownAt(at); {
+					case s < 0:
+						notStrict = true
+					case s > 0:
+						strict = true
+					}
+				}
+				if isNilConst(l.v) && strict && !notStrict {
+					nStrictMiss++
+				}
+				if !c11isFirstCert(l.v) {
+					continue
+				}
+				vd := fallback[l.v]
+				if vd == nil {
+					vd = &verdict{l.v.Pos(), true}
+					fallback[l.v] = vd
+					order = append(order, l.v)
+				}
+				if !notStrict {
+					vd.ok = false
+				}
+			}
+		})
+	}
+	for _, v := range order {
+		fn := "cert"
+		if i, ok := v.(ssa.Instruction); ok {
+			fn = fnKey(i.Parent())
+		}
+		c.check("C11.M1", fn+"|fallback to the first certificate only without strict matching", fallback[v].pos, fallback[v].ok,
+			"returning the first certificate is the fallback for 'no name matched'; with strict matching the listener must present no certificate instead (every way this value reaches the handshake callback's return must pass a 'not strict' branch)")
+	}
+	c.atLeast("C11.M1", "returns of the first certificate of the set below the handshake callbacks", len(order), 1)
+	c.check("C11.M1", "handshake|strict miss returns no certificate", m.cbs[0].Pos(), nStrictMiss >= 1, "with strict matching a miss must present no certificate: a nil certificate must reach the handshake callback's return under a known 'strict' branch")
+
+	// M2: lookups in the name index
+	isServerName := func(x ssa.Value) bool { _, isF := fieldOf(x, "tls.ClientHelloInfo", "ServerName"); return isF }
+	isLowerName := func(v ssa.Value) bool {
+		call, ok := isCallTo(v, "strings.ToLower")
+		if !ok {
+			return false
+		}
+		return derives(call.Call.Args[0], isServerName)
+	}
+	isDotTrim := func(v ssa.Value) bool {
+		call, ok := v.(*ssa.Call)
+		if !ok || len(call.Call.Args) < 2 {
+			return false
+		}
+		cut, isK := constString(call.Call.Args[1])
+		switch calleeName(&call.Call) {
+		case "strings.TrimRight", "strings.Trim":
+			return isK && strings.Contains(cut, ".")
+		case "strings.TrimSuffix":
+			return isK && cut == "."
+		}
+		return false
+	}
+	nLk, trim := 0, false
+	eachInstrOf(m.hsReg, func(f *ssa.Function, i ssa.Instruction) {
 		lk, ok := i.(*ssa.Lookup)
-		if !ok || !strings.HasSuffix(accessPath(lk.X), "NameToCertificate") {
+		if !ok || !m.isIndexMap(lk.X) {
 			return
 		}
 		nLk++
-		lower := derives(lk.Index, func(v ssa.Value) bool {
-			call, ok := isCallTo(v, "strings.ToLower")
-			if !ok {
-				return false
-			}
-			return derives(call.Call.Args[0], func(x ssa.Value) bool { _, isF := fieldOf(x, "tls.ClientHelloInfo", "ServerName"); return isF })
-		})
-		c.check("C11.M2", "cert.getCertificate|index lookup key is the lower-cased server name", lk.Pos(), lower,
+		c.check("C11.M2", fnKey(f)+"|index lookup key is the lower-cased server name", lk.Pos(), derives(lk.Index, isLowerName),
 			"the name index must be searched with strings.ToLower(clientHello.ServerName) (and names derived from it): server names are case-insensitive, 'WWW.Example.com' must find the certificate for www.example.com")
-	})
-	c.atLeast("C11.M2", "lookups in the name index", nLk, 2)
-	// trailing dots are trimmed: the lower-cased name is re-sliced in a loop testing the last byte against '.'
-	trim := false
-	eachInstr(getCert, func(i ssa.Instruction) {
-		if b, ok := i.(*ssa.BinOp); ok && b.Op == token.EQL {
-			if k, ok := constInt(b.Y); ok && k == '.' {
-				trim = true
-			}
+		if derives(lk.Index, func(v ssa.Value) bool { return isDotTrim(v) && derives(v, isServerName) }) {
+			trim = true
 		}
 	})
-	c.check("C11.M2", "cert.getCertificate|trailing dots trimmed", getCert.Pos(), trim, "a fully-qualified server name 'example.com.' must match the certificate for example.com")
-}
-
-func runC11L2(c *Ctx) {
-	sp := c.spkg("cert")
-	if sp == nil {
-		return
-	}
-	n := 0
-	for _, f := range c.AllFns {
-		if rootPkg(f) != sp {
-			continue
-		}
-		eachInstr(f, func(i ssa.Instruction) {
-			snd, ok := i.(*ssa.Send)
-			if !ok || typeStr(snd.X.Type()) != "[]crypto/tls.Certificate" {
+	c.atLeast("C11.M2", "lookups in the name index below the handshake callbacks", nLk, 1)
+	// trailing dots trimmed the hand-written way: the last byte of the lower-cased name is tested against '.'
+	eachInstrOf(m.hsReg, func(f *ssa.Function, i ssa.Instruction) {
+		switch x := i.(type) {
+		case *ssa.BinOp:
+			if x.Op != token.EQL && x.Op != token.NEQ {
 				return
 			}
-			// the loader call the value comes from
-			var loader *ssa.Call
-			derives(snd.X, func(v ssa.Value) bool {
-				if call, ok := v.(*ssa.Call); ok {
-					if sc := call.Call.StaticCallee(); sc != nil && isRepoFn(sc) && sc.Signature.Results().Len() == 2 && typeStr(sc.Signature.Results().At(1).Type()) == "error" {
-						loader = call
-						return true
-					}
-				}
-				return false
-			})
-			if loader == nil {
-				return // value built without a fallible loader (file source: fatal at start-up)
-			}
-			n++
-			errNil := false
-			for _, ft := range factsAt(snd.Block()) {
-				if nn, ok := nilFact(ft, func(v ssa.Value) bool {
-					e, isE := v.(*ssa.Extract)
-					return isE && e.Tuple == loader && e.Index == 1
-				}); ok && !nn {
-					errNil = true
+			for _, p := range [][2]ssa.Value{{x.X, x.Y}, {x.Y, x.X}} {
+				if k, ok := constInt(p[1]); ok && k == '.' && derives(p[0], isServerName) {
+					trim = true
 				}
 			}
-			c.check("C11.L2", fnKey(f)+"|certificates sent only when "+fnKey(loader.Call.StaticCallee())+" succeeded", snd.Pos(), errNil,
-				"the send on the certificates channel must be unreachable from the loader's error edge: a partly parsed set (loadCertificates returns the good ones together with the error) would replace the working set")
-		})
-	}
-	c.atLeast("C11.L2", "sends of loaded certificate sets", n, 2)
-}
-
-func runC11L3(c *Ctx) {
-	lc := c.fn("cert", "loadCertificates")
-	if !c.need("C11.L3", lc, "cert.loadCertificates") {
-		return
-	}
-	// the returned slice is appended to while ranging over a []string that is sorted after being filled from a map range
-	var sorts []*ssa.Call
-	eachInstr(lc, func(i ssa.Instruction) {
-		if call, ok := i.(*ssa.Call); ok {
-			switch calleeName(&call.Call) {
-			case "sort.Strings", "slices.Sort", "sort.Sort", "sort.Stable":
-				sorts = append(sorts, call)
-			}
-		}
-	})
-	ok := false
-	var pos token.Pos = lc.Pos()
-	eachInstr(lc, func(i ssa.Instruction) {
-		r, isR := i.(*ssa.Return)
-		if !isR || len(r.Results) != 2 || isNilConst(r.Results[0]) {
-			return
-		}
-		pos = r.Pos()
-		// result is built by appends inside a loop ranging over slice S; S must be an argument of a sort call
-		// that dominates the loop, and S must not be a map range.
-		for _, l := range loopsOf(lc) {
-			appendsResult := false
-			for b := range l.Body {
-				for _, in := range b.Instrs {
-					if call, isC := in.(*ssa.Call); isC && calleeName(&call.Call) == "builtin.append" && typeStr(call.Type()) == "[]crypto/tls.Certificate" {
-						appendsResult = true
-					}
-				}
-			}
-			if !appendsResult {
-				continue
-			}
-			// map-range loops contain a Next over a map
-			overMap := false
-			for _, in := range l.Head.Instrs {
-				if nx, isN := in.(*ssa.Next); isN && !nx.IsString {
-					overMap = true
-				}
-			}
-			if overMap {
-				ok = false
-				return
-			}
-			for _, s := range sorts {
-				if s.Block().Dominates(l.Head) {
-					ok = true
+		case *ssa.Call:
+			if calleeName(&x.Call) == "strings.HasSuffix" && len(x.Call.Args) == 2 {
+				if s, ok := constString(x.Call.Args[1]); ok && s == "." && derives(x.Call.Args[0], isServerName) {
+					trim = true
 				}
 			}
 		}
 	})
-	c.check("C11.L3", "cert.loadCertificates|result ordered by the sorted name list", pos, ok,
-		"the certificates must be appended in the order of the sorted file names (the first one is the default certificate); building the result while ranging over the map makes the default certificate random per reload")
-}
-
-func runC11L4(c *Ctx) {
-	tlsConfig := c.fn("cert", "TLSConfig")
-	set := c.method("cert", "Store", "SetCertificates")
-	if tlsConfig == nil || set == nil {
-		return
+	if nLk > 0 {
+		c.check("C11.M2", "handshake|trailing dots trimmed", m.cbs[0].Pos(), trim, "a fully-qualified server name 'example.com.' must match the certificate for example.com: the lower-cased name must lose its trailing dots (loop on the last byte, strings.TrimRight or strings.TrimSuffix) before the lookup")
 	}
-	var goI *ssa.Go
-	eachInstr(tlsConfig, func(i ssa.Instruction) {
-		if g, ok := i.(*ssa.Go); ok {
-			goI = g
-		}
-	})
-	if goI == nil {
-		c.check("C11.L4", "cert.TLSConfig|updates goroutine", tlsConfig.Pos(), false, "TLSConfig starts no goroutine applying certificate updates: a newly published set never takes effect")
-		return
-	}
-	// started on every path to the successful return
-	okStart := true
-	eachInstr(tlsConfig, func(i ssa.Instruction) {
-		r, ok := i.(*ssa.Return)
-		if !ok || len(r.Results) != 2 || isNilConst(r.Results[0]) {
-			return
-		}
-		if !dominatesInstr(goI, r) {
-			okStart = false
-		}
-	})
-	c.check("C11.L4", "cert.TLSConfig|updates goroutine started before the config is returned", goI.Pos(), okStart, "the goroutine applying updates must be running when the config is handed out")
-	mc, ok := goI.Call.Value.(*ssa.MakeClosure)
-	var g *ssa.Function
-	if ok {
-		g = mc.Fn.(*ssa.Function)
-	} else if f, ok := goI.Call.Value.(*ssa.Function); ok {
-		g = f
-	}
-	if g == nil {
-		c.undecided("C11.L4", "cert.TLSConfig|updates goroutine body", "not a closure")
-		return
-	}
-	// body: receive from src.Certificates() in a loop; every received value goes to SetCertificates unconditionally
-	var recv *ssa.UnOp
-	eachInstr(g, func(i ssa.Instruction) {
-		if u, ok := i.(*ssa.UnOp); ok && u.Op == token.ARROW {
-			if call, ok := u.X.(*ssa.Call); ok && call.Call.IsInvoke() && call.Call.Method.Name() == "Certificates" {
-				recv = u
-			}
-		}
-	})
-	if recv == nil {
-		c.check("C11.L4", "cert.TLSConfig$updates|receives from src.Certificates()", g.Pos(), false, "the goroutine must range over src.Certificates()")
-		return
-	}
-	applied := false
-	eachInstr(g, func(i ssa.Instruction) {
-		if !staticCalleeIs(i, set) {
-			return
-		}
-		cc := callCommon(i)
-		if !derives(cc.Args[1], func(v ssa.Value) bool { return v == recv }) {
-			return
-		}
-		// unconditional w.r.t. the received value: the only facts between receive and apply are the channel-open test
-		extra := 0
-		for _, f := range factsAt(i.Block()) {
-			if fi, ok := f.Cond.(ssa.Instruction); ok && fi.Block().Parent() == g {
-				if e, isE := f.Cond.(*ssa.Extract); isE && e.Tuple == recv {
-					continue // the ok of the receive
-				}
-				extra++
-			}
-		}
-		if extra == 0 {
-			applied = true
-		}
-	})
-	c.check("C11.L4", "cert.TLSConfig$updates|every received set is applied", recv.Pos(), applied, "every certificate set received from the source must be handed to Store.SetCertificates unconditionally; a filtered update leaves handshakes on a stale set")
 }
